@@ -214,7 +214,7 @@ class mp_unknown (mptcp_opt):
     o = cls()
     o.type = buf[offset]
     length = buf[offset+1]
-    o.data = buf[offset+2:offset+2+length]
+    o.data = buf[offset+2:offset+length]
     try:
       self.subtype = (buf[offset+2] & 0xf0) >> 4
     except:
